@@ -50,7 +50,7 @@ def skey(s): return json.dumps(s, sort_keys=True)
 def to_record(label, src, dst):
     a, args = label["a"], label["args"]
     nobj, nbuf = len(dst["obj"]), len(dst["rand"])
-    out = {"ret": label["ret"]}
+    out = {"ret": label["ret"], "dup": 0}     # dup: every successful generation yields nonce bytes never handed out before (fresh identities in the model)
     if label["icb"] != 9: out["icb"] = label["icb"]
     for o in range(nobj):
         ob = dst["obj"][str(o)] if isinstance(dst["obj"], dict) else dst["obj"][o]
